@@ -31,13 +31,14 @@ ASSUMPTIONS = ["every variable of the description is selected (the statement's p
 
 def plan(tier, seed):
     n = 220 if tier == "quick" else 2500
-    return [{"n": n, "sub": i} for i in range(16)] + [{"kind": "ix", "n": 40 if tier == "quick" else 400, "sub": 900 + i} for i in range(16)]
+    return [{"n": n, "sub": i} for i in range(16)] + [{"kind": "ix", "n": 40 if tier == "quick" else 400, "sub": 900 + i} for i in range(16)] + \
+        [{"kind": "scale", "n": 3 if tier == "quick" else 12, "sub": 1300 + i} for i in range(16)]
 
 
 def floors(tier):
     return {"distinct_nontrivial": 500, "cls:n=0": 300, "cls:n=1": 300, "cls:n>=2": 300, "cls:form:entity": 200,
             "cls:form:set_of": 300, "cls:form:predform": 100, "cls:predform_with_further_properties": 40, "cls:ambient:query": 100, "cls:ambient:rule": 100, "cls:caching_off": 200,
-            "cls:equal_valued_distinct_objects": 300, "cls:domain_without_instances_of_the_type": 100, "cls:solutions_equal_by_value": 50, "cls:feature_interaction_description": 300, "cls:earlier_query_on_the_same_variables": 300, "cls:no_domain_registry_with_subclass_instances": 150,
+            "cls:equal_valued_distinct_objects": 300, "cls:domain_without_instances_of_the_type": 100, "cls:solutions_equal_by_value": 50, "cls:feature_interaction_description": 300, "cls:earlier_query_on_the_same_variables": 300, "re:cls:scale:.*": 100, "cls:no_domain_registry_with_subclass_instances": 150,
             "re:The(@.*)?\\.enter": 0}
 
 
@@ -116,6 +117,46 @@ def cases(spec, ctx):
                         best["world"]["subs"][j] = []
                     best["empty_collections"] = True
                 yield {"ix": best}
+        return
+    if spec.get("kind") == "scale":
+        # SIZE: the(...) over domains of 80-300 objects and over joins with hundreds of candidate rows, pinned to 0, 1 or many
+        # solutions by a last conjunct on the position fields of the objects; every description is evaluated three times
+        for i in range(spec["n"]):
+            rng = ctx.rng(spec["sub"], i)
+            case = multi.gen_scale_case(rng, rng.choice(["single_big", "join_big", "selfjoin_big", "single_big"]))
+            if case["cond"][0] == "not":
+                case["cond"] = case["cond"][1]
+            j = i + spec["sub"]
+            if j % 4 == 1:
+                # the whole description is ONE equality between two attributes of the same variable, true for exactly j % 3 objects
+                case = multi.gen_scale_case(rng, "single_big")
+                ps = case["world"]["P"]
+                for o in ps:
+                    if o["a"] == o["b"]:
+                        o["b"] = o["a"] + 1
+                for o in rng.sample(ps, j % 3):
+                    o["b"] = o["a"]
+                case["cond"] = ["cmp", "==", ["v", 0, [["a", "a"]]], ["v", 0, [["a", "b"]]]]
+                case.update({"sel": [0], "form": "entity", "ambient": "none", "caching": rng.random() < 0.85,
+                             "earlier_query_on_the_same_variables": False})
+                yield case
+                continue
+            case["sel"] = list(range(len(case["kinds"])))
+            world = D.build_world(case["world"])
+            sols = [asg for asg in itertools.product(*H.domains(world, case["kinds"])) if C.holds(case["cond"], asg)]
+            want = (j // 2) % 3
+            if want == 1 and sols:
+                pick = rng.choice(sols)
+                pins = [["cmp", "==", ["v", vi, [["a", "ix"]]], ["lit", o.ix]] for vi, o in enumerate(pick)]
+                if case["kinds"] == ["P", "P"] or len(pins) == 1:
+                    case["cond"] = ["and", case["cond"]] + pins
+                else:   # (pins written after the join, one per variable)
+                    case["cond"] = ["and", case["cond"], pins[0], pins[1]]
+            elif want == 0:
+                case["cond"] = ["and", case["cond"], ["cmp", "<", ["v", 0, [["a", "ix"]]], ["lit", 0]]]
+            case.update({"form": "set_of", "ambient": "none", "caching": rng.random() < 0.85,
+                         "earlier_query_on_the_same_variables": False})
+            yield case
         return
     for i in range(spec["n"]):
         rng = ctx.rng(spec["sub"], i)
@@ -256,6 +297,8 @@ def check_case(case, ctx):
     if "ix" in case:
         return check_ix_the_case(case, ctx)
     world = D.build_world(case["world"])
+    if case.get("scale"):
+        ctx.cls("cls:scale:" + case["scale"])
     exp_rows = [] if case.get("domain_override") else multi.expected(case, world)
     if case.get("domain_override"):
         ctx.cls("cls:domain_without_instances_of_the_type")
